@@ -60,6 +60,10 @@ def run(ctx):
     r123(ctx, rep)
     r124(ctx, rep)
     r125(ctx, rep)
+    rep.rule('R12.7', 'a source row is never tested for truth (the empty row is falsy)')
+    r127(ctx, rep)
+    rep.rule('R12.8', 'Record(row, flds): flds are the text names of the header the row came with')
+    r128(ctx, rep)
     from .plumbing import check_plumbing
     rep.rule('R12.6', 'view -> iterator plumbing of the row/field transforms: self.X reaches the parameter named X')
     ctx.floor('plumbing_sites', check_plumbing(ctx, rep, 'R12.6', ['petl.transform.basics', 'petl.transform.headers', 'petl.transform.conversions', 'petl.transform.fills', 'petl.transform.maps', 'petl.transform.regex', 'petl.transform.unpacks', 'petl.util.base']), 90)
@@ -236,6 +240,103 @@ def r124(ctx, rep):
     else:
         rep.violated('R12.4', it, 'where false -> row unchanged',
                      'a row for which `where` is false is no longer delivered unchanged', it.node)
+
+
+# ------------------------------------------------------------------------ R12.7
+def r127(ctx, rep, rule='R12.7', prefixes=('petl.transform', 'petl.util')):
+    """A source row is never used for its truth value: the empty row () is
+    falsy, so `if row:` / `if not lookahead:` mistakes it for "no row"."""
+    from ..tables import tableinfo
+    ti = tableinfo(ctx)
+    n = 0
+    for fn in ctx.functions(list(prefixes)):
+        fa, events = analysed(ctx, fn)
+        ts = None
+        for ev in events:
+            if ev.kind != 'rowtruth':
+                continue
+            if ts is None:
+                ts = ti.table_sources(fn)
+            srcs = set(a[1] for a in ev.info['arg'] if a[0] in ('ROW', 'HDR'))
+            hit = {s for s in srcs if s in ts or ('self.' + s) in ts or s.startswith('self.')}
+            if not hit:
+                continue
+            n += 1
+            rep.violated(rule, fn, norm(ev.stmt)[:80],
+                         '`%s` may be a row of %s and is tested for truth: an empty row () is falsy and is taken for "no '
+                         'more rows" / "no row", so it and possibly everything after it is dropped (test `is None` instead)'
+                         % (norm(ev.node), sorted(hit)), ev.node)
+    return n
+
+
+# ------------------------------------------------------------------------ R12.8
+def r128(ctx, rep):
+    """Record(row, flds): the field names a row is wrapped with are those of the
+    header the row belongs to (a list built from the variable that received
+    next(it)), not of an output header that already contains inserted fields."""
+    n = 0
+    for fn in ctx.functions(['petl.transform', 'petl.util']):
+        calls = [c for f in [fn] for c in own_nodes(f.node) if isinstance(c, ast.Call) and norm(c.func) == 'Record'
+                 and len(c.args) >= 2]
+        if not calls:
+            continue
+        assigns = {}
+        for x in own_nodes(fn.node):
+            if isinstance(x, ast.Assign):
+                for t in x.targets:
+                    if isinstance(t, ast.Name):
+                        assigns.setdefault(t.id, []).append(x.value)
+                    elif isinstance(t, ast.Tuple):
+                        for e in t.elts:
+                            if isinstance(e, ast.Name):
+                                assigns.setdefault(e.id, []).append(x.value)
+        hdr_vars = set()
+        for name, vals in assigns.items():
+            for v in vals:
+                t = norm(v)
+                if t.startswith('next(') or t.startswith('tuple(next(') or t.startswith('iterpeek('):
+                    hdr_vars.add(name)
+        for c in calls:
+            a = c.args[1]
+            n += 1
+            cons = 'Record(%s, %s)' % (norm(c.args[0])[:30], norm(a)[:30])
+            if not isinstance(a, ast.Name):
+                rep.undecided('R12.8', fn, cons, 'field names are not a plain variable', c)
+                continue
+            if a.id in fn.params:
+                rep.held('R12.8', fn, cons, 'field names supplied by the caller', c)
+                continue
+            vals = assigns.get(a.id, [])
+            src = None
+
+            def from_header(v, depth=0):
+                """name of the header variable / parameter the field names are built from, or None"""
+                t = norm(v)
+                if t in ('[]', 'list()', '()'):
+                    return '<no header>'
+                for h in sorted(hdr_vars | set(fn.params)):
+                    if t in ('list(map(text_type, %s))' % h, '[text_type(f) for f in %s]' % h, 'list(map(str, %s))' % h,
+                             'tuple(map(text_type, %s))' % h, 'tuple((text_type(f) for f in %s))' % h):
+                        return h
+                if isinstance(v, ast.Name) and depth < 2 and v.id in assigns:
+                    rs = [from_header(x, depth + 1) for x in assigns[v.id]]
+                    if rs and all(rs):
+                        return rs[0]
+                return None
+            res = [from_header(v) for v in vals]
+            ok = bool(res) and all(res)
+            if ok:
+                src = [r for r in res if r != '<no header>'][0] if any(r != '<no header>' for r in res) else '<no header>'
+            inserted = any(isinstance(x, ast.Call) and isinstance(x.func, ast.Attribute) and x.func.attr == 'insert' and
+                           isinstance(x.func.value, ast.Name) and x.func.value.id == a.id for x in own_nodes(fn.node))
+            if ok and not inserted:
+                rep.held('R12.8', fn, cons, 'field names of the source header `%s`' % src, c)
+            else:
+                rep.violated('R12.8', fn, cons,
+                             'rows are wrapped as records with field names `%s` = %s, which are not the names of the header '
+                             'the rows belong to%s: access by field name reads the wrong cell'
+                             % (a.id, [norm(v)[:50] for v in vals], ' (positions shifted by insert)' if inserted else ''), c)
+    ctx.floor('record_wrapping_sites', n, 12)
 
 
 # ------------------------------------------------------------------------ R12.5
